@@ -334,6 +334,47 @@ def check(F, rep, tier):
         if ok: rep.ok("R15.6", "prefix_if adds the prefix exactly when the value is non-empty", nontrivial_key="prefix_if")
         elif not mir.fmt_templates(pif): rep.undecided("R15.6", "prefix-if-shape", "prefix_if does not build its result with a format template", pif.where())
         else: rep.bad("R15.6", "prefix-if-shape", "prefix_if does not build `prefix + value` under !value.is_empty()", pif.where())
+    # ---- R15.9 the `length` a template gives is the length used (0 included) ------------------------------------------------------------
+    nlen = 0
+    for nm in ("hash_function", "hash_int_function", "prefix_function"):
+        g0 = F.fn("crate::cli::utils::template::functions::" + nm)
+        if g0 is None: continue
+        g = mir.inlined(F, g0, depth=3, keep=("get_string_value",))
+        def from_length(op, g=g):
+            for k, d in mir.deep_origins(g, op, stop=()):
+                if k == "call" and d.isdigit() and g.blocks[int(d)]["t"][0] == "call":
+                    t2 = g.blocks[int(d)]["t"]
+                    if (mir.callee(t2) or "").endswith("::get") and any(mir.const_arg(g, a) == "length" for a in t2[2][1:]): return True
+            return False
+        found = False; filt = None
+        for bi, si, st in g.stmts():
+            if st[0] != "=" or st[2][0] not in ("cast", "use"): continue
+            op = st[2][2] if st[2][0] == "cast" else st[2][1]
+            if op[0] not in ("cp", "mv") or not from_length(op): continue
+            found = True
+            for d, pol, dd in mir.guards_of(g, bi):
+                # a comparison of the given length with a constant decides whether it is used at all
+                if d[0] == "bin" and d[1] in ("Gt", "Ge", "Lt", "Le", "Eq", "Ne") and len(d) > 3 and any(isinstance(x, (list, tuple)) and x[0] in ("cp", "mv") and from_length(x) for x in d[2:4]) \
+                        and any(isinstance(x, (list, tuple)) and x[0] == "c" for x in d[2:4]):
+                    filt = "%s bb%d line %s (%s)" % (g.where(), bi, g.blocks[bi]["line"], d[1])
+        for bi, t in g.calls():
+            c = mir.callee(t) or ""
+            if any(c.endswith(x) for x in ("Option::<T>::filter", "::max", "::clamp")) and t[2] and from_length(t[2][0]):
+                filt = "%s bb%d line %s (%s)" % (g.where(), bi, g.blocks[bi]["line"], c.rsplit("::", 1)[-1])
+        if not found: rep.undecided("R15.9", "length-lookup:" + nm, "%s: the `length` argument lookup is not recognised" % nm, g0.where()); continue
+        nlen += 1
+        if filt: rep.bad("R15.9", "length-filtered:" + nm, "%s uses its `length` argument only when it passes a comparison (%s): some explicit lengths (e.g. 0) are silently replaced by the default, so the result is longer than asked" % (nm, filt), g0.where())
+        else: rep.ok("R15.9", "%s uses the given `length` whatever its value" % nm, nontrivial_key="len" + nm)
+    rep.floor("R15.9", "template functions taking a length", nlen, 3)
+    # ---- R15.10 the template context has a fixed set of top-level names: user data cannot shadow a built-in variable ---------------
+    ser = [f for p_, f in F.fns.items() if p_.endswith("::serialize") and "Serialize for crate::cli::utils::template::context::ZervTemplateContext>" in p_]
+    if rep.anchor("R15.10", "<ZervTemplateContext as Serialize>::serialize", ser):
+        names = [mir.callee(t) or "" for bi, t in ser[0].calls()]
+        dyn = sorted({n.rsplit("::", 2)[-2] + "::" + n.rsplit("::", 1)[-1] for n in names if "FlatMap" in n or "SerializeMap" in n or n.endswith("::serialize_map") or n.endswith("::serialize_entry") or n.endswith("::collect_map")})
+        fixed = [n for n in names if n.endswith("SerializeStruct::serialize_field") or "SerializeStruct" in n]
+        if dyn: rep.bad("R15.10", "context-dynamic-keys", "the template context is serialised with run-time keys at its top level (%s): a custom variable named like a built-in one (semver, pep440, major, dirty, ...) replaces it in every template" % dyn[:4], ser[0].where())
+        elif fixed: rep.ok("R15.10", "the template context is a struct with a fixed set of field names (%d serialize_field calls)" % len(fixed), nontrivial_key="ctxfixed")
+        else: rep.undecided("R15.10", "context-serialize-shape", "the context's Serialize impl is neither serialize_struct nor map based", ser[0].where())
     return core.finish(rep, explanation=EXPL, assumptions=ASSUME, trusted=TRUST)
 
 EXPL = ("Sibling agreement between the template context and the formatters, decided on the MIR of ZervTemplateContext::from_zerv: {{ semver }} / {{ pep440 }} are to_string of the same From<Zerv> conversions of the unmodified object that "
